@@ -1,12 +1,13 @@
 (* Dispatch.v — single entry point of the executable model: one s-expression case
    in, one s-expression observation out.  Extracted to OCaml (ocaml/driver.ml) and
    evaluated by vm_compute in the per-run cases.v cross-check. *)
-From SE Require Import Base.Prelude Slots.SlotMapMachine Slots.SlotMachine Lang.LangMachine.
+From SE Require Import Base.Prelude Slots.SlotMapMachine Slots.SlotMachine Lang.LangMachine Parse.ParseMachine.
 
 Definition dispatch (e : sexp) : sexp :=
   match e with
   | Lst (Sym "c19" :: args) => run_c19 args
   | Lst (Sym "c17" :: args) => run_c17 false args
   | Lst (Sym "c16" :: args) => run_c16 false args
+  | Lst (Sym "c18" :: args) => run_c18 false false args
   | _ => Sym "unknown-case"
   end.
